@@ -1,6 +1,131 @@
-//! Validation of the machinery itself (determinism, reach). Exit 2 on failure, never a VIOLATION.
+//! Validation of the machinery itself. Exit 2 on failure — a failed self-test
+//! is a harness error, never a `VIOLATION`.
+//!
+//!   fqsim selftest determinism [--n N] [--seeds K]
+//!       every run executed twice, in different processes, with different
+//!       worker counts (16 / 3 / 1): per-run event-log hashes must be identical.
 
-pub fn main(_args: &[String]) -> i32 {
-    eprintln!("selftest: not built yet");
-    2
+use std::collections::BTreeMap;
+
+use serde_json::Value;
+
+use crate::pool::{self, arg_u64};
+use crate::report;
+
+fn collect(kind: &str, seed: u64, n: u64, w: u64, pristine: Option<&str>) -> Result<BTreeMap<u64, String>, String> {
+    let per = (n + w - 1) / w;
+    let argvs: Vec<Vec<String>> = (0..w)
+        .map(|i| {
+            let mut a = vec![
+                format!("{}-worker", kind),
+                "--seed".into(),
+                seed.to_string(),
+                "--start".into(),
+                i.to_string(),
+                "--stride".into(),
+                w.to_string(),
+                "--count".into(),
+                per.to_string(),
+            ];
+            if let Some(p) = pristine {
+                a.push("--pristine".into());
+                a.push(p.to_string());
+            }
+            a
+        })
+        .collect();
+    let outs = pool::run_children(&argvs);
+    let mut m = BTreeMap::new();
+    for o in outs {
+        if o.code != Some(0) {
+            return Err(format!("worker failed: {:?} {:?} {}", o.code, o.signal, o.stderr));
+        }
+        for l in o.lines {
+            if l.starts_with("{\"ep\"") || l.starts_with("{\"run\"") {
+                let v: Value = serde_json::from_str(&l).map_err(|e| e.to_string())?;
+                let idx = v.get("ep").or_else(|| v.get("run")).and_then(|x| x.as_u64()).unwrap_or(u64::MAX);
+                if idx < n {
+                    let sig = format!(
+                        "{}|{}|{}",
+                        v.get("t").and_then(|x| x.as_str()).unwrap_or(""),
+                        v.get("o").and_then(|x| x.as_str()).unwrap_or(""),
+                        v.get("h").and_then(|x| x.as_str()).unwrap_or("")
+                    );
+                    m.insert(idx, sig);
+                }
+            } else if l.starts_with("{\"found\"") {
+                return Err(format!("a worker reported a violation during the determinism self-test: {}", &l[..l.len().min(300)]));
+            }
+        }
+    }
+    Ok(m)
+}
+
+fn determinism(args: &[String]) -> i32 {
+    let n = arg_u64(args, "--n", 2000);
+    let k = arg_u64(args, "--seeds", 2);
+    let scratch = report::make_scratch("self");
+    let pristine = match crate::c14::anchors::compute_pristine(16) {
+        Ok(p) => p,
+        Err(e) => {
+            eprintln!("selftest: {}", e);
+            return 2;
+        }
+    };
+    let pp = scratch.join("pristine.json");
+    std::fs::write(&pp, serde_json::to_string(&pristine).unwrap()).unwrap();
+    let pp = pp.to_str().unwrap().to_string();
+    let mut bad = 0u64;
+    let mut total = 0u64;
+    for s in 0..k {
+        let seed = report::DEFAULT_SEED + 7919 * s;
+        for kind in ["c14", "c19"] {
+            let p = if kind == "c14" { Some(pp.as_str()) } else { None };
+            let mut maps = Vec::new();
+            for w in [16u64, 3, 1] {
+                let nn = if w == 1 { n / 8 } else { n };
+                match collect(kind, seed, nn, w, p) {
+                    Ok(m) => maps.push((w, m)),
+                    Err(e) => {
+                        eprintln!("selftest: {}", e);
+                        let _ = std::fs::remove_dir_all(&scratch);
+                        return 2;
+                    }
+                }
+            }
+            let (_, base) = &maps[0];
+            for (w, m) in &maps[1..] {
+                for (idx, sig) in m {
+                    total += 1;
+                    match base.get(idx) {
+                        Some(b) if b == sig => {}
+                        other => {
+                            bad += 1;
+                            if bad <= 10 {
+                                eprintln!("selftest: {} seed {} run {} differs between 16 and {} workers: {:?} vs {}", kind, seed, idx, w, other, sig);
+                            }
+                        }
+                    }
+                }
+            }
+            println!("selftest determinism: {} seed {}: {} runs x worker counts 16/3/1 compared", kind, seed, base.len());
+        }
+    }
+    let _ = std::fs::remove_dir_all(&scratch);
+    println!("selftest determinism: {} pairwise comparisons, {} mismatches", total, bad);
+    if bad > 0 {
+        2
+    } else {
+        0
+    }
+}
+
+pub fn main(args: &[String]) -> i32 {
+    match args.first().map(|s| s.as_str()) {
+        Some("determinism") | None => determinism(args),
+        _ => {
+            eprintln!("usage: fqsim selftest determinism [--n N] [--seeds K]");
+            2
+        }
+    }
 }
